@@ -97,7 +97,7 @@ def setAdd {α : Type} [DecidableEq α] (x : α) (l : List α) : List α := if l
 
 /-! ## the state-and-exception monad -/
 
-def M (α : Type) : Type := Store → Except Err α × Store
+abbrev M (α : Type) : Type := Store → Except Err α × Store
 
 namespace M
 @[inline] protected def pure {α : Type} (a : α) : M α := fun s => (.ok a, s)
